@@ -153,6 +153,9 @@ PIECES = [
     # an escape that decodes to the backslash itself: the decoded backslash escapes what follows
     ('\\x5c*', L('x5c') + (('star',),), L('*')), ('\\134?', L('134') + (('q',),), L('?')), ('\\u005cb', L('u005cb'), L('b')),
     ('\\x5c\\x5c', L('x5cx5c'), L('\\')), ('\\N{REVERSE SOLIDUS}*', L('N{REVERSE SOLIDUS}') + (('star',),), L('*')),
+    # names with hyphens and digits
+    ('\\N{ZERO WIDTH NON-JOINER}', L('N{ZERO WIDTH NON-JOINER}'), L('\u200c')), ('\\N{CJK UNIFIED IDEOGRAPH-4E00}', L('N{CJK UNIFIED IDEOGRAPH-4E00}'), L('\u4e00')),
+    ('\\f', L('f'), L('\f')), ('\\v', L('v'), L('\v')), ('\\r', L('r'), L('\r')), ('\\b', L('b'), L('\b')),
     ('a', L('a'), L('a')), ('1', L('1'), L('1')), ('x', L('x'), L('x')), ('4', L('4'), L('4')),
     ('*', (('star',),), (('star',),)), ('?', (('q',),), (('q',),)),
     ('[\\x41b]', (('set', False, (('c', 'x'), ('c', '4'), ('c', '1'), ('c', 'b'))),),
